@@ -24,13 +24,13 @@ func init() {
 		core.RunLeg(c, core.Leg[specCase]{
 			Name: "S", Kind: "correspondence(spec)",
 			Rule: "random ASTs of the C01 fragment (depth 1-3; literals, classes incl. shorthand/negation/subtraction, dot, anchors, seq/alt, greedy+lazy quantifiers on non-nullable non-quantifier bodies, captures named+unnamed, backrefs, lookahead/lookbehind, atomic, conditionals) printed to a pattern, option sets from {i,m,s,n,x,RE2}; 8 pattern-directed inputs per AST (≤10 runes: near-misses, newline, é/É, α/Α, я/Я, U+0301, U+1F600), start offset 0 or random; Go FindRunesMatchStartingAt (match span + every capture of every group) vs Lean Spec.find on the AST; non-trivial = AST has >1 node and input non-empty; distinct by (options, pattern, input, start)",
-			N: c.N(6000, 400000), Gen: st.next, Check: specCheck("C01"), Batch: 4000,
+			N:    c.N(6000, 400000), Gen: st.next, Check: specCheck("C01"), Batch: 4000,
 		})
 		st2 := &specGenState{cfg: c01Config(false), perAst: 6, maxLen: 10}
 		core.RunLeg(c, core.Leg[specCase]{
 			Name: "T", Kind: "correspondence(spec on the engine's tree)",
 			Rule: "same generator as leg S; the pattern is parsed by syntax.Parse (reductions and rewrites applied), the resulting RegexNode tree is converted structurally to the specification's AST (right-to-left concatenations reversed back, char loops as quantifiers, atomic variants as atomic(...), sets via their structural dump with category predicates from Go's unicode tables) and Spec.find on that tree must equal the engine's find: ties the writer and interpreter to the tree semantics and isolates the parser/reducer",
-			N: c.N(4000, 300000), Gen: st2.next, Check: specTreeCheck("C01"), Batch: 4000,
+			N:    c.N(4000, 300000), Gen: st2.next, Check: specTreeCheck("C01"), Batch: 4000,
 		})
 		vmLeg(c, c.N(500, 8000), vmSizes{k: 24, maxSteps: 4000, maxText: 12, extra: 2}) // leg W: interpreter model vs executeDefault (vm.go)
 		wrLeg(c, 4000, 400000)
